@@ -478,6 +478,109 @@ def loops_to_comprehensions(block):
     return out, n
 
 
+# ---------------------------------------------------------------- single-use locals ("inline variable")
+def _block_lists(fn):
+    """all statement lists inside fn (not descending into nested functions / classes)"""
+    out = [fn.body]
+    stack = list(fn.body)
+    while stack:
+        st = stack.pop()
+        if isinstance(st, A.FUNC_TYPES + (ast.ClassDef,)):
+            continue
+        for field in ('body', 'orelse', 'finalbody'):
+            blk = getattr(st, field, None)
+            if isinstance(blk, list) and blk and isinstance(blk[0], ast.stmt):
+                out.append(blk)
+                stack.extend(blk)
+        if isinstance(st, ast.Try):
+            for h in st.handlers:
+                out.append(h.body)
+                stack.extend(h.body)
+    return out
+
+
+def _use_path_ok(stmt, name):
+    """the single Load of `name` inside `stmt` is evaluated exactly once when `stmt` runs: it is not in a loop body,
+    a comprehension element, a lambda, a nested def or a nested block of a compound statement. The iterable of a
+    `for` header and of the first generator of a comprehension are evaluated once and are fine."""
+    def find(node, blocked):
+        for f, v in ast.iter_fields(node):
+            vals = v if isinstance(v, list) else [v]
+            for x in vals:
+                if not isinstance(x, ast.AST):
+                    continue
+                if isinstance(x, ast.Name) and x.id == name and isinstance(x.ctx, ast.Load):
+                    return not blocked
+                b2 = blocked
+                if isinstance(node, (ast.ListComp, ast.SetComp, ast.DictComp, ast.GeneratorExp)):
+                    # only generators[0].iter is evaluated once
+                    if not (isinstance(x, ast.comprehension) and x is node.generators[0]):
+                        b2 = True
+                elif isinstance(node, ast.comprehension):
+                    if x is not node.iter:
+                        b2 = True
+                elif isinstance(node, (ast.For, ast.AsyncFor)):
+                    if x is not node.iter:
+                        b2 = True
+                elif isinstance(node, (ast.While, ast.Lambda, ast.FunctionDef, ast.AsyncFunctionDef, ast.Try, ast.With, ast.ClassDef)):
+                    b2 = True
+                elif isinstance(node, ast.If) and isinstance(x, ast.stmt):
+                    b2 = True
+                r = find(x, b2)
+                if r is not None:
+                    return r
+        return None
+    if isinstance(stmt, (ast.While, ast.Try, ast.With, ast.FunctionDef, ast.AsyncFunctionDef, ast.ClassDef)):
+        return False
+    return find(stmt, False) is True
+
+
+def inline_single_use_locals(fn):
+    """`x = <expr>` followed, in the same block, by the only use of x -> the use is replaced by <expr>.
+    Undoes "introduce explaining variable" so that one shape covers both spellings."""
+    total = 0
+    for _round in range(4):
+        loads, stores = {}, {}
+        for n in ast.walk(fn):
+            if isinstance(n, ast.Name):
+                d = loads if isinstance(n.ctx, ast.Load) else stores
+                d[n.id] = d.get(n.id, 0) + 1
+            elif isinstance(n, (ast.Nonlocal, ast.Global)):
+                for t in n.names:
+                    stores[t] = stores.get(t, 0) + 9
+        params = {a.arg for a in fn.args.posonlyargs + fn.args.args + fn.args.kwonlyargs}
+        done = 0
+        for blk in _block_lists(fn):
+            i = 0
+            while i < len(blk) - 1:
+                st = blk[i]
+                if isinstance(st, ast.Assign) and len(st.targets) == 1 and isinstance(st.targets[0], ast.Name):
+                    name = st.targets[0].id
+                    if stores.get(name) == 1 and loads.get(name) == 1 and name not in params \
+                            and not any(isinstance(x, (ast.Yield, ast.YieldFrom, ast.Await, ast.NamedExpr)) for x in ast.walk(st.value)):
+                        # the (only) use in a later statement of the same block; the statements in between must not
+                        # rebind anything the defining expression reads
+                        reads = {x.id for x in ast.walk(st.value) if isinstance(x, ast.Name)}
+                        j = i + 1
+                        while j < len(blk) and not any(isinstance(x, ast.Name) and x.id == name for x in ast.walk(blk[j])):
+                            writes = {x.id for x in ast.walk(blk[j]) if isinstance(x, ast.Name) and isinstance(x.ctx, ast.Store)}
+                            if writes & reads or isinstance(blk[j], (ast.For, ast.While, ast.Try, ast.With, ast.If)) and j - i > 3:
+                                j = len(blk)
+                                break
+                            j += 1
+                        if j < len(blk) and _use_path_ok(blk[j], name):
+                            blk[j] = _AliasSubst({name: st.value}).visit(blk[j])
+                            del blk[i]
+                            done += 1
+                            loads[name] = 0
+                            continue
+                i += 1
+        total += done
+        if not done:
+            break
+    return total
+
+
 def normalise(tree):
     """in-place normalisation of a module tree; returns statistics"""
     stats = {'helpers_inlined': 0, 'aliases_inlined': 0, 'loops_to_comprehensions': 0}
@@ -486,5 +589,8 @@ def normalise(tree):
         stats['aliases_inlined'] += inline_aliases(fn)
     tree.body, k = loops_to_comprehensions(tree.body)
     stats['loops_to_comprehensions'] = k
+    stats['single_use_locals_inlined'] = 0
+    for fn in [n for n in ast.walk(tree) if isinstance(n, A.FUNC_TYPES)]:
+        stats['single_use_locals_inlined'] += inline_single_use_locals(fn)
     ast.fix_missing_locations(tree)
     return stats
